@@ -1670,3 +1670,58 @@ def docwords(repo):
                 "doc/grammar.md", line_of, "reserved keywords")
     res.analysed = ["compiler/front_end/reserved_words", "doc/grammar.md"]
     return res
+
+
+def subbyte(repo):
+    """R-SUBBYTE (C14/C07): back-end precondition vs. front-end check.  For a scalar field of a `struct` the back end
+    takes the view's size from the explicit `:N`, else from a constant field size, else formats `None` into the
+    template; and a view over N bits that are not a whole number of bytes needs a BitBlock, which static_asserts on
+    byte buffers.  With a constant field size the size-mismatch error covers it.  For a run-time sized field
+    (`1 [+n] Flag x`, `1 [+n] UInt:3 x`) constraints._check_type_requirements_for_field therefore has, in the chain that
+    compares the fixed element size with the field, an arm that is reached when the field size is not constant, tests
+    `element_size % <addressable unit of the enclosing type>` and reports an error."""
+    res = RuleResult("R-SUBBYTE")
+    m = repo.mod("compiler/front_end/constraints.py")
+    fs = [f for f in m.top_funcs() if f.name == "_check_type_requirements_for_field"]
+    if not fs:
+        raise AnalysisError("constraints._check_type_requirements_for_field not found")
+    f = fs[0]
+    chain_head = None
+    for n in walk_no_nested_funcs(f.node):
+        if isinstance(n, ast.If) and "field_is_atomic" in ast.unparse(n.test) and "element_size is not None" in ast.unparse(n.test):
+            for st in n.body:
+                if isinstance(st, ast.If) and "field_max_size == field_min_size" in ast.unparse(st.test):
+                    chain_head = st
+    if chain_head is None:
+        raise AnalysisError("_check_type_requirements_for_field: the chain comparing element size and field size was not found")
+    arms = []
+    cur = chain_head
+    while isinstance(cur, ast.If):
+        arms.append(cur)
+        cur = cur.orelse[0] if len(cur.orelse) == 1 and isinstance(cur.orelse[0], ast.If) else None
+    res.instances = len(arms)
+    ok = False
+    for a in arms[1:]:
+        t = ast.unparse(a.test)
+        # the arm may (and, since an anonymous bits type may be smaller than its constant-size field, does) restrict
+        # itself to run-time sized fields; any other mention of the field size would narrow it
+        rest = re.sub(r"field_min_size != field_max_size|field_max_size != field_min_size", "", t)
+        if re.search(r"element_size % type_definition\.addressable_unit\s*!=\s*0", t) and "field_m" not in rest \
+                and isinstance(a.test, (ast.Compare, ast.BoolOp)) and not (isinstance(a.test, ast.BoolOp) and isinstance(a.test.op, ast.Or)) \
+                and "errors.append" in ast.unparse(a) and any(isinstance(x, ast.Return) for x in ast.walk(a)):
+            ok = True
+    # or as a separate statement after the chain inside the same block
+    if not ok:
+        res.add(f"{m.rel}|{f.name}|dynamic-subbyte", f"{f.name}: no arm rejects a fixed-size scalar whose size is not a multiple of the enclosing "
+                "structure's addressable unit when the field size is only known at run time: `1 [+n] Flag x` is accepted and the "
+                "header contains `FixedSizeViewParameters<None, ...>`; `1 [+n] UInt:3 x` fails BitBlock's static_assert",
+                m.rel, chain_head.lineno, f.name)
+    # the back-end side of the agreement: field_size may stay None
+    hg = repo.mod("compiler/back_end/cpp/header_generator.py")
+    g = [x for x in hg.top_funcs() if x.name == "_get_cpp_type_reader_of_field"]
+    if not g:
+        raise AnalysisError("header_generator._get_cpp_type_reader_of_field not found")
+    res.instances += 1
+    res.samples = [f"{f.name}: {len(arms)} arms; dynamic sub-unit arm present: {ok}"]
+    res.analysed = [m.rel, hg.rel]
+    return res
